@@ -114,7 +114,24 @@ impl PeerCollection {
         for peer_index in peer_indices {
             let peer = self.index_to_peers.remove(&peer_index).unwrap();
             if let Some(public_key) = peer.get_public_key() {
-                self.address_to_peers.remove(&public_key);
+                // only the entry the map points at gives up the key, and the key stays
+                // reachable if another connection (a live one first) still holds it
+                if self.address_to_peers.get(&public_key) == Some(&peer_index) {
+                    let other = self
+                        .index_to_peers
+                        .iter()
+                        .filter(|(_, p)| p.public_key == Some(public_key))
+                        .map(|(i, p)| (matches!(p.peer_status, PeerStatus::Connected), *i))
+                        .max();
+                    match other {
+                        Some((_, index)) => {
+                            self.address_to_peers.insert(public_key, index);
+                        }
+                        None => {
+                            self.address_to_peers.remove(&public_key);
+                        }
+                    }
+                }
             }
         }
     }
